@@ -40,6 +40,7 @@ type pnode struct {
 	depth  int
 	parent *pnode
 	label  string
+	code   bool // a function value read from prestate/global: immutable
 }
 
 type ploc struct {
@@ -139,6 +140,7 @@ func (a aval) key() string {
 type leaf struct {
 	path  string
 	iface bool
+	fn    bool // function-typed leaf: the pointee is immutable code
 }
 
 type effect struct {
@@ -165,6 +167,7 @@ type purity struct {
 	undec   map[string]*effect
 	stats   struct{ activations, writes, freshWrites int }
 	writeSites map[ssa.Instruction]bool
+	lastRet    aval
 }
 
 type memoEntry struct {
@@ -242,7 +245,7 @@ func (pu *purity) flatten(t types.Type) []leaf {
 		for i := 0; i < u.NumFields(); i++ {
 			f := u.Field(i)
 			for _, l := range pu.flatten(f.Type()) {
-				out = append(out, leaf{"." + f.Name() + l.path, l.iface})
+				out = append(out, leaf{"." + f.Name() + l.path, l.iface, l.fn})
 			}
 		}
 	case *types.Array:
@@ -250,16 +253,18 @@ func (pu *purity) flatten(t types.Type) []leaf {
 	case *types.Tuple:
 		for i := 0; i < u.Len(); i++ {
 			for _, l := range pu.flatten(u.At(i).Type()) {
-				out = append(out, leaf{fmt.Sprintf("#%d", i) + l.path, l.iface})
+				out = append(out, leaf{fmt.Sprintf("#%d", i) + l.path, l.iface, l.fn})
 			}
 		}
-	case *types.Pointer, *types.Slice, *types.Map, *types.Chan, *types.Signature:
-		out = []leaf{{"", false}}
+	case *types.Pointer, *types.Slice, *types.Map, *types.Chan:
+		out = []leaf{{"", false, false}}
+	case *types.Signature:
+		out = []leaf{{"", false, true}}
 	case *types.Interface:
-		out = []leaf{{"", true}}
+		out = []leaf{{"", true, false}}
 	case *types.Basic:
 		if u.Kind() == types.UnsafePointer {
-			out = []leaf{{"", false}}
+			out = []leaf{{"", false, false}}
 		}
 	}
 	pu.leaves[t] = out
@@ -285,7 +290,11 @@ func (pu *purity) read(n *pnode, rel string, t types.Type) aval {
 			if lf.iface {
 				out.add(lf.path+"#box", ploc{n, key})
 			} else {
-				out.add(lf.path, ploc{pu.inChild(n, key), ""})
+				ch := pu.inChild(n, key)
+				if lf.fn {
+					ch.code = true
+				}
+				out.add(lf.path, ploc{ch, ""})
 			}
 		}
 		if lf.iface {
@@ -558,6 +567,48 @@ func (pu *purity) reachesPrestate(v aval) (bool, string) {
 		}
 	}
 	return false, ""
+}
+
+// reachesGlobal: a mutable object (slice, map, pointer target) of package-level state reachable from v.
+func (pu *purity) reachesGlobal(v aval) string {
+	seen := map[*pnode]bool{}
+	var visit func(n *pnode) string
+	visit = func(n *pnode) string {
+		if seen[n] {
+			return ""
+		}
+		seen[n] = true
+		if n.code {
+			return ""
+		}
+		if n.kind == nGlob && n.parent != nil {
+			return n.key // an object reached through a package-level variable (not the variable's own cell)
+		}
+		for _, s := range pu.heap[n] {
+			for l := range s {
+				if w := visit(l.n); w != "" {
+					return w
+				}
+			}
+		}
+		return ""
+	}
+	for k, s := range v {
+		if strings.HasSuffix(k, "#box") {
+			for l := range s {
+				if l.n.kind == nGlob {
+					return l.n.key + l.rel
+				}
+			}
+			continue
+		}
+		for l := range s {
+			if w := visit(l.n); w != "" {
+				return w
+			}
+		}
+	}
+	return ""
 }
 
 // analyse runs fn on abstract arguments and returns the abstract result.
@@ -1209,8 +1260,9 @@ func (pu *purity) runRoot(fn *ssa.Function) int {
 		pu.changed = false
 		pu.memo = map[string]*memoEntry{}
 		pu.stack = nil
-		pu.analyse(fn, pu.rootArgs(fn), nil, 0)
+		ret := pu.analyse(fn, pu.rootArgs(fn), nil, 0)
 		if !pu.changed {
+			pu.lastRet = ret
 			return it
 		}
 	}
@@ -1272,13 +1324,14 @@ type purityResult struct {
 	globals map[string][]*effect
 	undec   map[string][]*effect
 	iters   map[string]int
+	retGlob map[string]string // root -> package-level object its result may alias
 	stats   struct{ activations, writes, freshWrites, writeSites int }
 }
 
 // purityResult analyses the public roots whose name passes filter (nil = all); results are cached per root.
 func (p *Prog) purityResult(filter func(string) bool) *purityResult {
 	if p.pur == nil {
-		p.pur = &purityResult{effects: map[string][]*effect{}, globals: map[string][]*effect{}, undec: map[string][]*effect{}, iters: map[string]int{}}
+		p.pur = &purityResult{effects: map[string][]*effect{}, globals: map[string][]*effect{}, undec: map[string][]*effect{}, iters: map[string]int{}, retGlob: map[string]string{}}
 		p.pur.roots = publicRoots(p)
 	}
 	r := p.pur
@@ -1293,6 +1346,9 @@ func (p *Prog) purityResult(filter func(string) bool) *purityResult {
 		t0 := time.Now()
 		a0 := pu.stats.activations
 		r.iters[fname(fn)] = pu.runRoot(fn)
+		if g := pu.reachesGlobal(pu.lastRet); g != "" {
+			r.retGlob[fname(fn)] = g
+		}
 		if os.Getenv("QF_DEBUG") != "" {
 			fmt.Fprintf(os.Stderr, "root %-50s iters=%d activations=%d nodes=%d %.2fs\n", fname(fn), r.iters[fname(fn)], pu.stats.activations-a0, len(pu.nodes), time.Since(t0).Seconds())
 		}
@@ -1424,4 +1480,29 @@ func init() {
 	purityRule("R1g", "PURITY-GROUP", 4, "(qframe.QFrame).GroupBy", "(qframe.Grouper).Aggregate", "(qframe.Grouper).QFrames", "(qframe.QFrame).Distinct")
 	purityRule("R1a", "PURITY-APPLY", 4, "(qframe.QFrame).Apply", "(qframe.QFrame).FilteredApply", "(qframe.QFrame).WithRowNums", "(qframe.QFrame).Eval")
 	purityRule("R1n", "PURITY-PROJECT", 6, "qframe.New", "(qframe.QFrame).Select", "(qframe.QFrame).Drop", "(qframe.QFrame).Slice", "(qframe.QFrame).Copy", "(qframe.QFrame).Filter")
+}
+
+func init() {
+	register(&Rule{ID: "R47", Name: "FRESH-RESULT", Floor: 3,
+		Text: "the value returned by the evaluation-context and configuration constructors (eval.NewDefaultCtx, eval.NewConfig and the other config constructors) does not alias mutable package-level state: a context handed to a caller who then calls SetFunc on it must not share maps with the built-in table of other contexts",
+		Run: func(c *Ctx) {
+			p := c.P
+			want := func(n string) bool {
+				return strings.HasPrefix(n, "config/") && (strings.Contains(n, ".New") || strings.Contains(n, "Ctx"))
+			}
+			r := p.purityResult(want)
+			for _, fn := range r.roots {
+				name := fname(fn)
+				if !want(name) {
+					continue
+				}
+				if g, ok := r.retGlob[name]; ok {
+					c.bad(name+"|result", p.pos(fn.Pos()), "the returned value aliases package-level state ("+g+"): mutating one context/config (SetFunc) changes what every other one sees")
+				} else if es := r.undec[name]; len(es) > 0 {
+					c.undecided(name+"|result", p.pos(fn.Pos()), fmtEffects(es))
+				} else {
+					c.ok(name+"|result", p.pos(fn.Pos()), "result reaches no package-level object")
+				}
+			}
+		}})
 }
